@@ -70,7 +70,7 @@ def rand_scenario(rng, n, p_edge=0.35, p_slice=0.3, wraps=False, fails=False, la
                   seed=rng.randint(0, 2 ** 31), sid=sid, procs=pr, mode=md, quiet=rng.random() < 0.3, runners=rn, ilook=il)
     # with no substitution at early-reference time the harness processor may be a plain one: then nothing in the application
     # implements GetEarlyBeanReference (a substitution AFTER initialisation must still be noticed in a cycle)
-    sc["plainRig"] = all(w in ("none", "after") for w in wrap) and rng.random() < 0.5
+    sc["plainRig"] = all(w in ("none", "after") for w in wrap) and "early" not in fail and rng.random() < 0.5
     sc["extra"] = rng.random() < 0.25      # the second public by-type collector registered as well: candidates arrive twice (fix F13 keeps the first)
     return sc
 
